@@ -191,6 +191,37 @@ def handoff_check(fs, step, b_pyi, stats):
     ainfo = cache[path]
     if ainfo is None:
       continue
+    # `P.s.name` reads the SUBMODULE P.s only if the package P does not bind
+    # `s` itself (pytype: names of __init__ take precedence over submodules);
+    # when it does - e.g. `import s` of a top-level module with the same
+    # name - the read is not a read of this upstream module at all
+    shadowed = False
+    comps = mod.split(".")
+    for i in range(1, len(comps)):
+      ipath = step.imports_items.get("/".join(comps[:i]) + "/__init__")
+      if not ipath or ipath == os.devnull or not fs.has(ipath):
+        continue
+      if ipath not in cache:
+        try:
+          cache[ipath] = simpair.read_stub(fs.get_text(ipath))
+        except (SyntaxError, UnicodeDecodeError):
+          cache[ipath] = None
+      pinfo = cache[ipath]
+      if pinfo is None:
+        continue
+      bound = set(pinfo["consts"]) | set(pinfo["funcs"]) | set(pinfo["classes"])
+      for line in pinfo.get("imports", []):
+        try:
+          st_ = __import__("ast").parse(line).body[0]
+        except SyntaxError:
+          continue
+        for al in st_.names:
+          bound.add(al.asname or al.name.split(".")[0])
+      if comps[i] in bound:
+        shadowed = True
+    if shadowed:
+      stats["handoff_probes_shadowed"] = stats.get("handoff_probes_shadowed", 0) + 1
+      continue
     if call:
       want = name if name in ainfo["classes"] else None
     else:
@@ -295,8 +326,11 @@ def simulate_real(wl, planned, plan, steps, sched):
       # defines: "no such attribute" on such a line means the step saw a
       # different module than the one that was written for it (first passes
       # of cycles excepted, as for import errors)
+      import re as _re
       bad += [e for e in r["errors"] if e[0] in ("module-attr", "attribute-error")
-              and "\nu_" in e[1]]
+              and _re.search(r"\nu_\d+_\d+ = [A-Za-z_]\w*\.\w+(\(\))?\n", e[1])]
+      # (reads through a dotted name `P.s.x` are left to handoff_check, which
+      # knows when the package P binds `s` itself)
       if bad and eid in first_pass:
         # the first pass over an import cycle runs before the other members'
         # stubs exist; the planner ignores its errors by design
